@@ -127,6 +127,11 @@ static void execute(const Exec &e, const vo::Fail &fail, Result *res = nullptr)
                         kk = "C03|stale-query-after-" + switchKind + "|" + pl;
                     else
                         kk += where;
+                    // classified by cause: the exact solution the definition holds was reported by an EARLIER call, this call only
+                    // added an approximate one (planners that do not remember their own solution) - kept apart from every other way
+                    // of returning Approximate solution next to an exact one
+                    if (k.find("status-approximate-but-exact") != std::string::npos && hadTop && !topBefore.approximate_)
+                        kk += "|exact-solution-predates-this-call";
                     fail(kk, w + " [history step " + op + "]");
                 };
                 vo::checkStatus(*P, st, before, pl, tag, cur.get());
